@@ -1,14 +1,15 @@
+\* every call of the quick alphabet as a call whose response is never read (Hangup)
 SPECIFICATION Spec
 CONSTANTS
     Mode = "edges"
     Depth = 0
     MaxCalls = 1
-    Calls <- QuickCalls
+    Calls <- McCalls
     Probes <- ProbeCalls
     Debug = FALSE
     HookMode = "ok"
     PvSet = FALSE
-    Hang = FALSE
+    Hang = TRUE
     DrainOnRefusal = TRUE
 VIEW View
 CHECK_DEADLOCK FALSE
